@@ -102,12 +102,16 @@ EXACT = ('each function is verified against an EXACT characterisation of what it
          'variables: feas() == (old(feas()) and <the stated constraints>), which is soundness and completeness of the constraint set at once, for every instance size; ')
 PROPS['C01'] = dict(
     title='Reported matching is always a valid matching of the input instance',
-    functions=[LP + 'upper_lower_constraints', LP + 'run_optimisations', LP + 'run', MOD + 'pulp_setup', 'solver:Solver.solve', MOD + '_get_pair_assignments', MOD + '_get_matching_string', MOD + 'set_project_lists', MOD + 'set_lecturer_lists'],
-    lemmas=['C01/closure-pair', 'LISTSET/empty-append', 'LISTSET/iterate'], level='other',
-    level_text=EXACT + 'upper_lower_constraints adds exactly: every row sum <= 1, every project list sum within [lq, uq] (or the closure-gated pair), every lecturer list sum within [lq, uq]; run / run_optimisations never remove a constraint (constraints-only-grow); Model.pulp_setup creates exactly one binary variable per acceptable pair, named by student and project number (plus alpha / beta, the three bounded per-lecturer families and the closure variables when requested) and adds nothing else; Solver.solve builds a fresh problem, establishes every precondition of LP_Solver.run from the guarantees of the reader and the option parser and stores the status of the last solve.  NOT proved deductively (bounded stand-in): that project_lists / lecturer_lists hold each pair of that project / lecturer exactly once as a SUM identity (set_project_lists proves the element sets), and reading the matching back from the solution values in get_results',
+    functions=[LP + 'upper_lower_constraints', LP + 'run_optimisations', LP + 'run', MOD + 'pulp_setup', 'solver:Solver.solve', MOD + '_get_pair_assignments', MOD + '_get_matching_string',
+               MOD + 'set_project_lists', MOD + 'set_lecturer_lists', MOD + 'get_results', 'solver:Solver.get_results_short', 'solver:Solver.get_results_long'],
+    lemmas=['C01/closure-pair', 'C01/reported-matching-valid', 'SUM/ext', 'LISTSET/empty-append', 'LISTSET/iterate'], level='proof',
+    level_text=EXACT + 'upper_lower_constraints adds exactly: every row sum <= 1, every project list sum within [lq, uq] (or the closure-gated pair), every lecturer list sum within [lq, uq]; run / run_optimisations never remove a constraint; Model.pulp_setup creates exactly one binary variable per acceptable pair (named by student and project number) and adds nothing but domains; Solver.solve builds a fresh problem, establishes every precondition of LP_Solver.run and guarantees that EVERY valuation satisfying the solved program is 0/1 on the pair variables and satisfies the row / project / lecturer constraints; set_project_lists / set_lecturer_lists: for every weight function of pair objects the weights on list j add up to the weights of the pairs with index j (each pair of that project / lecturer exactly once - catches a pair appended twice, which the element-set view cannot); _get_pair_assignments: the project / lecturer / student loads of the list read back from the solution are the sums of the reported values over the pairs of that project / lecturer / row; composition lemma C01/reported-matching-valid (T3 made explicit: nu := the reported valuation) derives the two solution preconditions of Model.get_results, which proves valid_list(printed pairs, -pc) whenever it prints a matching; _get_matching_string prints exactly that list',
     harness=True, bound='<= 4 students x <= 3 projects x <= 3 lecturers, 0-3 random criteria, real CBC',
     budget={'quick': 25, 'thorough': 300}, trusted=T_LP,
-    assumptions=['ModelWF list/sum agreement and the read-back of the matching are covered by the bounded stand-in only', 'a student does not list one project twice (two pairs with equal numbers would share one variable name)'])
+    assumptions=['T3: a status Optimal comes with a valuation satisfying the program (also for a time-limit stop with an incumbent)',
+                 'the model at solve time is the one the reader built (derived lists as set_project_lists / set_lecturer_lists left them; the verified frames of pulp_setup / solve / run touch only variables and result fields); the reader itself is C10',
+                 'a student does not list one project twice (two pairs with equal numbers would share one variable name)',
+                 'the stability_correct line (-stab) of get_results is outside this contract (C06)'])
 PROPS['C02'] = dict(
     title='Solver reports Optimal exactly when a feasible matching exists; never errors',
     functions=[LP + 'run', LP + 'run_optimisations', MOD + 'pulp_setup', 'solver:Solver.solve'] + CRIT_FUNCS,
